@@ -723,6 +723,36 @@ static void s3_child(void *arg)
         s3file_free(s);
         feat_free(fcb);
         config_free(cfg);
+    } else if (n == 7 && !strcmp(w[1], "lda2")) {
+        /* feat_read_lda_s3file twice on one front end: the first (intact) file sets feat->lda, the second call
+         * (the case) has a previous matrix to release; both calls are inside the allocation trace */
+        s3file_t *s0, *s;
+        config_t *cfg = config_init(NULL);
+        feat_t *fcb;
+        int sl = atoi(w[6]);
+        if ((b = load_src(w[2], w[3], &len)) == NULL || (b2 = load_src(w[4], w[5], &len2)) == NULL) { emit(" bad-src"); return; }
+        config_set_str(cfg, "feat", "1s_c_d_dd");
+        config_set_int(cfg, "ceplen", sl / 3);
+        fcb = feat_init_s3file(cfg, NULL);
+        if (fcb == NULL || (int)feat_stream_len(fcb, 0) != sl) { emit(" harness-error feat"); return; }
+        s0 = s3file_init(b, len);
+        s = s3file_init(b2, len2);
+        {
+            int rv0, rvl;
+            trace_start();
+            rv0 = feat_read_lda_s3file(fcb, s0, 0);
+            if (rv0 < 0) { trace_stop(); emit(" bad-old"); }
+            else {
+                rvl = feat_read_lda_s3file(fcb, s, 0);
+                trace_stop();
+                if (rvl < 0) emit(" rej");
+                else emit(" ok %u %u %u", fcb->n_lda, fcb->out_dim, feat_stream_len(fcb, 0));
+            }
+        }
+        s3file_free(s0);
+        s3file_free(s);
+        feat_free(fcb);
+        config_free(cfg);
     } else if (n == 7 && !strcmp(w[1], "sd")) {
         s3file_t *s;
         gauden_t g;
@@ -735,7 +765,17 @@ static void s3_child(void *arg)
         s = s3file_init(b, len);
         rv = read_sendump(s, &g, atoi(w[6]), &cb, &mixw);
         if (rv < 0) emit(" rej");
-        else emit(" ok %d %ld %ld", cb ? 16 : 0, (long)((const char *)mixw[0][0] - (const char *)s->buf), (long)(s->ptr - (const char *)s->buf));
+        else {
+            /* last word: sum over all row pointers of (k+1) * offset, k = n * n_density + i (mod 2^32) */
+            unsigned long rs = 0;
+            int nn, ii;
+            for (nn = 0; nn < g.n_feat; nn++)
+                for (ii = 0; ii < g.n_density; ii++)
+                    rs = (rs + (unsigned long)(nn * g.n_density + ii + 1)
+                               * (unsigned long)((const char *)mixw[nn][ii] - (const char *)s->buf)) % 4294967296UL;
+            emit(" ok %d %ld %ld %lu", cb ? 16 : 0, (long)((const char *)mixw[0][0] - (const char *)s->buf),
+                 (long)(s->ptr - (const char *)s->buf), rs);
+        }
         ckd_free_2d(mixw);
         s3file_free(s);
     } else if (n == 4 && !strcmp(w[1], "mdef")) {
